@@ -94,10 +94,8 @@ def check(prog, res, tier):
         ob.verdict, ob.detail, ob.witness = REFUTED, f'header slice constants differ from the documented layout: {diff}', {k: str(v) for k, v in diff.items()}
     else:
         xend, cend = got['_X_TABLE_ID'][1], got['_C_TABLE_SUB_ID'][1]
-        if sorted(offs) == sorted([0, -(xend - cend)]):
-            ob.verdict, ob.detail = PROVED, f'6 header slices contiguous; compressed offset {-(xend - cend)} = -({xend}-{cend})'
-        else:
-            ob.verdict, ob.detail, ob.witness = REFUTED, f'column offsets are {offs}, expected 0 (expanded) and {-(xend - cend)} (compressed)', {'offsets': offs}
+        # the compressed column offset -(xend - cend) itself is decided semantically by C18.b
+        ob.verdict, ob.detail = PROVED, f'6 header slices contiguous; compressed rows are {xend - cend} bytes shorter in the header (offset decided by C18.b)'
     res.add(ob)
 
     # ---- C18.b column slicing (semantic)
